@@ -413,3 +413,43 @@ func LoadReplay(path string, v any) (key string) {
 	}
 	return w.Key
 }
+
+// NewLocal returns a worker-local report (no locking contention, own States/Transitions);
+// fold it back with MergeInto.
+func NewLocal(parent *Report) *Report {
+	return &Report{ID: parent.ID, Tier: parent.Tier, Seed: parent.Seed, Level: parent.Level, VerifDir: parent.VerifDir,
+		distinct: map[[16]byte]struct{}{}, maxSamples: 2, Extra: map[string]any{}, known: parent.known,
+		knownHit: map[string]int{}, violations: map[string]*viol{}, Exhaustive: true, start: parent.start}
+}
+
+func (r *Report) MergeInto(parent *Report) {
+	parent.mu.Lock()
+	defer parent.mu.Unlock()
+	parent.evaluations += r.evaluations
+	for k := range r.distinct {
+		if _, ok := parent.distinct[k]; !ok {
+			parent.distinct[k] = struct{}{}
+			parent.distinctN++
+		}
+	}
+	parent.States += r.States
+	parent.Transitions += r.Transitions
+	parent.Traces += r.Traces
+	if !r.Exhaustive {
+		parent.Exhaustive = false
+	}
+	for _, smp := range r.samples {
+		if len(parent.samples) < parent.maxSamples {
+			parent.samples = append(parent.samples, smp)
+		}
+	}
+	for _, k := range r.violOrder {
+		v := r.violations[k]
+		if old, ok := parent.violations[k]; ok {
+			old.Count += v.Count
+		} else {
+			parent.violations[k] = v
+			parent.violOrder = append(parent.violOrder, k)
+		}
+	}
+}
